@@ -33,18 +33,27 @@ pub fn profile() -> Profile {
 }
 
 pub fn c08_case() -> BoxedStrategy<C08Case> {
-    (case_strategy(&profile()), any::<u8>(), proptest::option::weighted(0.5, (0u8..40, 0u8..8, 0u8..3)))
+    (case_strategy(&profile()), any::<u8>(), proptest::option::weighted(0.5, (0u8..40, 0u8..8, 0u8..5)))
         .prop_map(|(mut case, salt, handover)| {
             case.setup.n_monitors = case.setup.n_monitors.max(1);
             if let Some((at, to, then)) = handover {
                 // splice a completed (or pending) handover into the history so that former admins,
                 // nominees and re-nominations are common in the probed states
                 let at = (at as usize).min(case.ops.len());
-                let mut ins = vec![
-                    Op::Ownership { user: Caller::Admin, act: OwnAct::Transfer(Caller::User(to)) },
-                    Op::Advance(TimeSel::OwnerDue(1 + then % 2)),
-                    Op::Ownership { user: Caller::Nominee, act: OwnAct::Accept },
-                ];
+                let mut ins = if then >= 3 {
+                    // a nomination that is replaced (3) or revoked (4): the first nominee must have lost the right
+                    vec![
+                        Op::Ownership { user: Caller::Admin, act: OwnAct::Transfer(Caller::User(to)) },
+                        Op::Advance(TimeSel::OwnerDue(1 + to % 2)),
+                        if then == 3 { Op::Ownership { user: Caller::Admin, act: OwnAct::Transfer(Caller::User(to ^ 1)) } } else { Op::Ownership { user: Caller::Admin, act: OwnAct::Revoke } },
+                    ]
+                } else {
+                    vec![
+                        Op::Ownership { user: Caller::Admin, act: OwnAct::Transfer(Caller::User(to)) },
+                        Op::Advance(TimeSel::OwnerDue(1 + then % 2)),
+                        Op::Ownership { user: Caller::Nominee, act: OwnAct::Accept },
+                    ]
+                };
                 if then == 2 {
                     ins.push(Op::Ownership { user: Caller::Admin, act: OwnAct::Transfer(Caller::FormerAdmin) });
                 }
@@ -116,10 +125,17 @@ pub fn check_c08_case(c: &C08Case, agg: &mut Agg) -> Result<(), String> {
         ("staker-hook-wrong-channel", hooks_sender(&a.other_channel, &m.cfg.staker, &a.pprefix)),
         ("reward-hook-wrong-sender", hooks_sender(&m.cfg.channel, &a.natives[c.salt as usize % a.natives.len()], &a.pprefix)),
         ("staker-hook-native-prefix", hooks_sender(&m.cfg.channel, &m.cfg.staker, &a.nprefix)),
+        ("staker-native-address", m.cfg.staker.clone()),
+        ("collector-native-address", m.cfg.collector.clone()),
         ("contract-itself", a.contract.clone()),
         ("user", a.users[c.salt as usize % a.users.len()].clone()),
         ("initial-admin", a.admin0.clone()),
     ];
+    if let Some(s) = &m.superseded {
+        if Some(s) != m.nominee.as_ref() && *s != m.admin {
+            principals.push(("superseded-nominee", s.clone()));
+        }
+    }
     for (i, mon) in m.cfg.monitors.iter().enumerate().take(2) {
         principals.push((if i == 0 { "monitor0" } else { "monitor1" }, mon.clone()));
     }
@@ -291,6 +307,9 @@ pub fn check_c08_case(c: &C08Case, agg: &mut Agg) -> Result<(), String> {
     }
     if m.nominee.is_some() {
         *agg.flags.entry("state_with_nominee".into()).or_insert(0) += 1;
+    }
+    if m.superseded.is_some() {
+        *agg.flags.entry("state_with_superseded_nominee".into()).or_insert(0) += 1;
     }
     Ok(())
 }
